@@ -77,6 +77,8 @@ fn mt_ops(kinds: &'static [Kind], sq_sizes: &[u32], faults: bool) {
         fds: Vec::new(),
         pools: Vec::new(),
         direct_enabled: false,
+        other: None,
+        signals: Vec::new(),
     };
     let fd = w.new_fd();
 
@@ -191,14 +193,16 @@ fn mt_ops(kinds: &'static [Kind], sq_sizes: &[u32], faults: bool) {
                 let r = alloc::a10(|| ring_ref.poll(Some(Duration::from_millis(1))));
                 if let Err(e) = r {
                     let code = e.raw_os_error().unwrap_or(0);
-                    if code != libc::EBUSY && code != libc::EINTR {
+                    if code != libc::EBUSY && code != libc::EINTR && code != libc::EAGAIN {
                         violation("panic", format!("Ring::poll failed: {e}"));
                     }
                 }
                 rounds += 1;
                 sched::step_boundary();
             }
+            kernel::with(|k| k.in_ring_drop = true);
             alloc::a10(|| drop(ring));
+            kernel::with(|k| k.in_ring_drop = false);
         }));
     }
     stats::inc(C::probe_concurrent_submit);
@@ -351,6 +355,8 @@ pub fn mt_wake() {
         fds: Vec::new(),
         pools: Vec::new(),
         direct_enabled: false,
+        other: None,
+        signals: Vec::new(),
     };
     let fd = w.new_fd();
     let nfill = tape::choose(site::GEOM, sq + 1);
@@ -509,6 +515,8 @@ pub fn mt_pool() {
         fds: Vec::new(),
         pools: Vec::new(),
         direct_enabled: false,
+        other: None,
+        signals: Vec::new(),
     };
     let fd = w.new_fd();
     let pool = match alloc::a10(|| a10::io::ReadBufPool::new(w.sq.clone(), size, 16)) {
